@@ -114,7 +114,7 @@ def main():
         ],
         "checks": checks,
         "not_applicable": na,
-        "notes": "Exit codes: 0 held, 1 VIOLATION, 2 machinery failure (never a verdict). known_findings.json lists recorded/fixed genuine defects. See DESIGN.md.",
+        "notes": "Exit codes: 0 held, 1 VIOLATION, 2 machinery failure (never a verdict; a violation shown on the real code takes precedence over machinery notes). known_findings.json lists recorded/fixed genuine defects. When a check of a property that is conditional on a returned symbol skipped cases because the checked build of the subject panicked, it repeats itself against a release build of the subject (cargo profile relsubject, built lazily) and reports what it finds there, marked as such. seeded/ and benign/ hold the sub-agent changes used to test detection and silence; no check reads them. See DESIGN.md.",
     }
     json.dump(m, open(os.path.join(HERE, "MANIFEST.json"), "w"), indent=1)
     print("MANIFEST.json written:", len(checks), "checks,", len(na), "not_applicable")
